@@ -112,6 +112,7 @@ func runUnit(w *World, pk *Pkg, c *Contract) (res *UnitResult) {
 				panic(r)
 			}
 		}
+		e.implAxioms()
 		res.Obligs = e.obligs
 		res.Abstracted = e.abstracted
 		res.Notes = e.notes
